@@ -222,7 +222,7 @@ var addingFocus bool
 
 // focusLabels is the alphabet of the second exploration: the focus-only events plus the context
 // they need (older/newer versions of the same address, fillers of both authors for eviction).
-var focusLabels = []string{"r2", "q1", "a1", "a3", "v2", "pt", "dPt", "a2d", "aY", "dQv2", "dQa1", "xt", "x1", "tv"}
+var focusLabels = []string{"r2", "q1", "a1", "a3", "v2", "pt", "dPt", "a2d", "aY", "dQv2", "dQa1", "xt", "x1", "tv", "aC", "dAC"}
 
 func init() {
 	P, Q := authorP, authorQ
@@ -238,6 +238,9 @@ func init() {
 	// two d tags: the address is given by the FIRST one (d=x); a d=y event is a different address
 	addEv("a2d", "P kind 30000 @2 tags [d,x],[d,y] (address d=x)", P, 30000, 2, tag("d", "x"), tag("d", "y"))
 	addEv("aY", "P kind 30000 d=y @1", P, 30000, 1, tag("d", "y"))
+	// a d value that contains the separator of addresses, and the deletion request naming that address
+	addEv("aC", "P kind 30000 d=u:v @2", P, 30000, 2, tag("d", "u:v"))
+	addEv("dAC", "P kind 5 @3 a:30000:P:u:v (the d value contains a colon)", P, 5, 3, tag("a", "30000:"+pubkeys[P]+":u:v"))
 	// tags that have a name and no value element
 	addEv("tv", "P kind 1 @3 tags [t],[d] (no value elements)", P, 1, 3, tag("t"), tag("d"))
 	// deletion requests of Q naming P's replaceable / addressable event by id
